@@ -12,25 +12,25 @@ import (
 // on the SAME Context value and the SAME operand Decimals, each goroutine
 // writing to its own destination.
 type ConcEv struct {
-	K    string `json:"k"` // "conc"
-	Op   string `json:"op"`
-	Ctx  Ctx    `json:"ctx"`
-	X    Dec    `json:"x"`
-	Y    Dec    `json:"y"`
-	Q    int    `json:"q"`
-	Seq  AOut   `json:"seq"`
-	Conc []AOut `json:"conc"`
-	RO   []string `json:"ro"`   // read-only method results when run alone
+	K    string     `json:"k"` // "conc"
+	Op   string     `json:"op"`
+	Ctx  Ctx        `json:"ctx"`
+	X    Dec        `json:"x"`
+	Y    Dec        `json:"y"`
+	Q    int        `json:"q"`
+	Seq  AOut       `json:"seq"`
+	Conc []AOut     `json:"conc"`
+	RO   []string   `json:"ro"`  // read-only method results when run alone
 	ROC  [][]string `json:"roc"` // the same from each goroutine
-	Key  string `json:"key"`
+	Key  string     `json:"key"`
 }
 
 type concCase struct {
-	op   string
-	ci   int
-	xi   int
-	yi   int
-	q    int
+	op string
+	ci int
+	xi int
+	yi int
+	q  int
 }
 
 func readOnly(x, y *apd.Decimal) []string {
